@@ -14,6 +14,7 @@ import itertools
 import weakref
 
 from mc.core import CaseResult, Failure, HarnessError
+from mc import idadv
 
 PROPERTY = "C20"
 LEVEL = "model_checking"
@@ -49,6 +50,11 @@ def cases(tier, seed):
             if "newE" not in seq or "newP" not in seq:
                 continue
             out.append(seq)
+    # the same histories when the allocator hands the identity of every dead instance to the next instance born
+    # (mc/idadv.py); the three repetitions of a history create their instances after those of the repetition before died
+    for seq in list(out):
+        if len(seq) <= d - 1 and ("drop" in seq or any(o.startswith("new") for o in seq)):
+            out.append(("@recycled",) + seq)
     return out
 
 
@@ -157,7 +163,43 @@ def body(seq, rep, census, touched, related=None, states=None):
     live.clear()
 
 
+_ADV = [None]
+_HOOKED = [False]
+
+
+def hook_births():
+    if _HOOKED[0]:
+        return
+    _HOOKED[0] = True
+    from krrood.entity_query_language import predicate as P
+    orig = P.update_cache
+
+    def update_cache(instance):
+        if _ADV[0] is not None:
+            _ADV[0].born(instance)
+        return orig(instance)
+    P.update_cache = update_cache
+
+
 def run_case(seq):
+    if seq and seq[0] == "@recycled":
+        hook_births()
+        _ADV[0] = idadv.IdAdversary(recycle=True)
+        try:
+            with idadv.installed(_ADV[0]):
+                res = run_case_inner(seq[1:], " [identities of dead instances are reused at once]")
+            if _ADV[0].recycled:
+                res.features = set(res.features or ()) | {"identity-recycled"}
+            if res.nontrivial_key is not None:
+                res.nontrivial_key = seq
+            res.outcome_key = ("@recycled", res.outcome_key)
+            return res
+        finally:
+            _ADV[0] = None
+    return run_case_inner(seq, "")
+
+
+def run_case_inner(seq, note):
     res = CaseResult()
     _O.reset_graph()
     gc.collect()
@@ -173,7 +215,7 @@ def run_case(seq):
         try:
             body(seq, rep, census, touched, related, states)
         except Exception as e:
-            res.failures.append(Failure("crash", f"{seq} repetition {rep}: {type(e).__name__}: {e}"))
+            res.failures.append(Failure("crash", f"{seq}{note} repetition {rep}: {type(e).__name__}: {e}"))
             break
         gc.collect()
         res.transitions += len(seq)
@@ -195,16 +237,16 @@ def run_case(seq):
             still = [n for n, r in census if r() is not None]
             if still:
                 res.failures.append(Failure("survivor-unknown-holder",
-                                            f"{seq} repetition {rep}: {still} still alive after all user references were "
+                                            f"{seq}{note} repetition {rep}: {still} still alive after all user references were "
                                             f"dropped and krrood's expression registries were emptied"))
                 break
             if untouched:
                 res.failures.append(Failure("survivor-never-queried",
-                                            f"{seq} repetition {rep}: {untouched} were never in a query's domain nor related to an object that was, yet only "
+                                            f"{seq}{note} repetition {rep}: {untouched} were never in a query's domain nor related to an object that was, yet only "
                                             f"died once the expression registries were emptied"))
                 break
             res.failures.append(Failure("survivor-held-by-expression-registry",
-                                        f"{seq} repetition {rep}: {survivors} stayed alive after every user reference, "
+                                        f"{seq}{note} repetition {rep}: {survivors} stayed alive after every user reference, "
                                         f"query and result was dropped; they died once SymbolicExpression._id_expression_map_ "
                                         f"and RWXNode._graph were emptied"))
             # the objects are dead now; continue with the remaining oracles
@@ -213,10 +255,10 @@ def run_case(seq):
             seen = (list(an(entity(let(_O.VPerson, None))).evaluate()) + list(an(entity(let(_O.VCompany, None))).evaluate())
                     + list(an(entity(let(_O.VCEO, None))).evaluate()))
         except Exception as e:
-            res.failures.append(Failure("crash", f"{seq} repetition {rep}: census query raised {type(e).__name__}: {e}"))
+            res.failures.append(Failure("crash", f"{seq}{note} repetition {rep}: census query raised {type(e).__name__}: {e}"))
             break
         if seen:
-            res.failures.append(Failure("dead-instance-visible", f"{seq} repetition {rep}: domain-less variables still range "
+            res.failures.append(Failure("dead-instance-visible", f"{seq}{note} repetition {rep}: domain-less variables still range "
                                                                  f"over {seen}"))
             break
         del seen
@@ -225,7 +267,7 @@ def run_case(seq):
         if gs != base_graph:
             grown = {k: (base_graph[k], v) for k, v in gs.items() if v != base_graph[k]}
             res.failures.append(Failure("bookkeeping-left-behind:" + "+".join(sorted(grown)),
-                                        f"{seq} repetition {rep}: symbol graph containers (empty baseline, now): {grown}"))
+                                        f"{seq}{note} repetition {rep}: symbol graph containers (empty baseline, now): {grown}"))
             break
         reg_after = registry_sizes()
         reg_growth.append({k: reg_after[k] - reg_before[k] for k in reg_after})
@@ -260,7 +302,7 @@ def cluster_key(case, f):
 
 
 def finish(run):
-    if run.exhaustive and not run.features.get("relate"):
+    if run.exhaustive and not (run.features.get("relate") and run.features.get("identity-recycled")):
         raise HarnessError("vacuous")
 
 
